@@ -116,6 +116,18 @@ add("C14", "pysym",
     "most obligations are structural (cell identity): the solver generalises over cell values and enumerates existence patterns; graph contract for to_networkx_graph (gap-free seq, padding at the tail, edges name existing vertices) assumed",
     "DESIGN.md §6 C14")
 
+add("C12", "jaxpr2smt",
+    "bounded symbolic execution of the jaxpr of the real `episode` closure of rex.artificial._generate_graphs (captured at its jax.vmap call site) over z3 terms with all delay distributions as oracles (samples = uninterpreted functions of the PRNG key, real clip-at-zero kept); scans unrolled, while loop unrolled with an unwinding assertion; z3 decides the vertex/edge laws; counterexamples re-checked through the public generate_graphs",
+    "For 2 nodes with <= 5 vertices each, rate pairs (2,3),(3,2)((2,2),(4,3)), skip on/off and arbitrary computation/communication delays: vertices start at the phase, are spaced >= one period, last one sampled delay >= 0, never overlap, seq = -1 exactly beyond the horizon; messages are received one sampled delay >= 0 after the sender ended and (for in-order arrivals) consumed by the first receiver step starting at/after arrival (strictly after for skip), -1 beyond the horizon; augmentation returns existing vertices unchanged and adds exactly the missing keys. With reordered arrivals the literal first-eligible-step clause fails: known finding K4.",
+    "floats as reals, +inf as 1e12; horizon concrete; acyclicity argued from forward-in-time edges (not encoded); mixture/trainable distributions enter only as 'some delay sample'",
+    "DESIGN.md §6 C12")
+
+add("C11", "jaxpr2smt",
+    "bounded symbolic execution of the jaxpr of TrainableDist.apply_delay (linear / linear_real_only, jnp.interp inlined) and of jax.grad through it over z3 reals; the piecewise-linear interpolant is stated independently as an If-chain; z3 (non-linear real arithmetic) decides equality, bracketing, zero-order-hold coincidence and the gradient law; counterexamples re-checked numerically on the real function",
+    "For windows 1-2 with extension 2(3), scalar payloads, every alpha in [0,1], step time and message timing satisfying the extended-window invariant: each entry equals the piecewise-linear signal through (arrival, value) at the shifted query time, the newest entry equals the sender's signal at ts_start - delay and lies between its neighbouring messages, coincides with the zero-order-hold result at breakpoints, and its derivative w.r.t. alpha is -(max-min) times the segment slope strictly inside a segment; dtypes/shape preserved.",
+    "floats as reals; send times >= 1us apart; sender regularity (<= ext unarrived entries); linear: at most one default entry; linear_real_only: no default entries (its -1e9 sentinel relies on float absorption); Lipschitz continuity not attempted",
+    "DESIGN.md §6 C11")
+
 def main():
     checks = []
     for pid in sorted(CHECKS):
